@@ -1365,6 +1365,13 @@ class Kconfig(object):
                 #           and choices every time we are loading the file.
                 for sym in self.unique_defined_syms:
                     sym._was_set = False
+                    if is_main_sdkconfig:
+                        # What is remembered about the main sdkconfig must describe the file
+                        # being loaded now, not an earlier one: entries of symbols the new
+                        # file does not mention would otherwise take part in default-value
+                        # mismatch detection (and in menuconfig's "needs save" check).
+                        sym._sdkconfig_value = None
+                        sym._loaded_as_default = False
 
                 for choice in self.unique_choices:
                     choice._was_set = False
